@@ -1,0 +1,67 @@
+// Copyright 2024 The Go Authors. All rights reserved.
+// Use of this source code is governed by a BSD-style
+// license that can be found in the LICENSE file.
+
+//go:build verif
+
+// Contracts (//@ lines) for the gotelemetry command; compiled only with -tags verif.
+
+package main
+
+// C19 ghosts ($mode, $asof, $fsops are declared by package telemetry):
+//
+//	$removes  calls of os.Remove made by runClean
+
+//	$rm       the entry being examined was passed to os.Remove
+
+//@ ghost removes wide
+//@ ghost rm bool
+
+//@ predicate wanted(dir, name): (dir == telemetry.Default.LocalDir() && (strings.HasSuffix(name, ".v1.count") || strings.HasSuffix(name, ".json"))) || (dir == telemetry.Default.UploadDir() && strings.HasSuffix(name, ".json"))
+
+//@ contract telemetryOnMessage
+//@   modifies nothing
+
+//@ contract failf
+//@   ensures false
+//@   modifies nothing
+//@ contract warnf
+//@   modifies nothing
+
+// The mode commands: nothing is written when the mode already is the requested
+// one; otherwise the only file operation is SetMode's single write of the mode
+// file, and it is asked to record exactly the requested mode.
+//@ contract runOn
+//@   at call SetMode#1: assert arg1 == "on" && $mode != "on"
+//@   ensures old($mode) == "on" ==> $fsops == old($fsops)
+//@   ensures $fsops <= old($fsops)+1
+//@   modifies $fsops
+//@ contract runLocal
+//@   at call SetMode#1: assert arg1 == "local" && $mode != "local"
+//@   ensures old($mode) == "local" ==> $fsops == old($fsops)
+//@   ensures $fsops <= old($fsops)+1
+//@   modifies $fsops
+//@ contract runOff
+//@   at call SetMode#1: assert arg1 == "off" && $mode != "off"
+//@   ensures old($mode) == "off" ==> $fsops == old($fsops)
+//@   ensures $fsops <= old($fsops)+1
+//@   modifies $fsops
+
+// clean: the only file operations are os.Remove calls, each on an entry of the
+// local directory whose name ends in .v1.count or .json, or an entry of the
+// upload directory whose name ends in .json; every such entry is removed.
+// (The two directories are different paths: NewDir joins "local" and "upload"
+// to the same parent. Path contents are not modelled, hence a precondition.)
+//@ contract runClean
+//@   requires telemetry.Default.LocalDir() != telemetry.Default.UploadDir()
+//@   at call Remove#1: ghost $removes = $removes+1
+//@   at call Remove#1: assert arg0 == filepath.Join(dir, entry.Name())
+//@   at call Remove#1: assert wanted(dir, entry.Name())
+//@   at call Remove#1: ghost $rm = true
+//@   at call Name#1: ghost $rm = false
+//@   loop 3: invariant (rangeindex >= 0 ==> !$rm) && len(suffixes) <= 2 && (!remove && rangeindex >= 0 ==> !strings.HasSuffix(entry.Name(), suffixes[0])) && (!remove && rangeindex >= 1 ==> !strings.HasSuffix(entry.Name(), suffixes[1]))
+//@   at loop 2 end: assert wanted(dir, entry.Name()) ==> $rm
+//@   loop 1: invariant $fsops-old($fsops) == $removes-old($removes)
+//@   loop 2: invariant $fsops-old($fsops) == $removes-old($removes)
+//@   loop 3: invariant $fsops-old($fsops) == $removes-old($removes)
+//@   modifies $fsops, $removes, $rm
